@@ -476,6 +476,8 @@ type gate struct {
 	hit     int32
 	cancel  context.CancelFunc
 	release chan struct{}
+	act     func() // mode "act"
+	actErr  error
 }
 
 var theGate = &gate{}
@@ -503,6 +505,18 @@ func init() {
 		case "cancel":
 			if cancel != nil {
 				cancel()
+			}
+		case "act":
+			// first hit only: do what the test asked for (the client goes away, unsubscribes,
+			// the server context ends) while this resolver is running, then give up the way a
+			// resolver that watches its context does
+			theGate.mu.Lock()
+			act, ret := theGate.act, theGate.actErr
+			theGate.act = nil
+			theGate.mu.Unlock()
+			if act != nil {
+				act()
+				return ret
 			}
 		}
 		return nil
